@@ -486,7 +486,9 @@ impl<C: ContentAddrStore> SealedState<C> {
             if count % 100 == 0 {
                 log::warn!("{} left", count);
             }
-            count -= 1;
+            // `count` only feeds the progress message; the tree's own entry counter can be lower than the number of
+            // entries iterated (removing an absent key, as the legacy deposit rule does, decrements it)
+            count = count.saturating_sub(1);
         }
     }
 
